@@ -22,3 +22,10 @@ func ObserveBool(label string, v bool)
 func ObserveBytes(label string, v []byte)
 func AllocLimit(n int)
 func Symbolic() bool
+
+// eager boolean connectives: both operands are evaluated, no branch is generated
+func Implies(a, b bool) bool
+func And(a, b bool) bool
+func Or(a, b bool) bool
+func IteU64(c bool, a, b uint64) uint64
+func IteInt(c bool, a, b int) int
